@@ -47,9 +47,10 @@ Multi == {<<<<"a", <<i1>>>>, <<"o", <<<<ka, sa>>>>>>>>,
           <<<<"o", <<>>>>, <<"a", <<>>>>, <<"a", <<sq, <<"a", <<n>>>>>>>>>>,
           <<<<"a", <<sa, sa>>>>, <<"a", <<sa>>>>>>}
 
+DocsFlag == {<<<<"a", <<ovf, i1>>>>>>, <<<<"o", <<<<ka, ovf>>, <<kb, sa>>>>>>>>, <<<<"a", <<f25, ovf>>>>>>}
 DocsQuick   == Shapes(4, {n, sa}) \cup Flat \cup Multi
 DocsFull    == Shapes(5, {n, sa}) \cup Flat \cup Multi
-DocsEdit    == Shapes(3, {n, sa, i1}) \cup Multi
+DocsEdit    == Shapes(3, {n, sa, i1}) \cup Multi \cup DocsFlag
                  \cup {<<<<"a", <<i1, <<"o", <<<<ka, sa>>, <<kb, <<"a", <<n, t>>>>>>>>>>, sq>>>>>>,
                        <<<<"o", <<<<ka, <<"a", <<sa, i1>>>>>>, <<kb, f25>>, <<ka, n>>>>>>>>}
 DocsEditFull == Shapes(4, {n, sa, i1}) \cup Multi \cup Flat
@@ -60,6 +61,10 @@ SetOpsDef == {<<"null", 0>>, <<"bool", TRUE>>, <<"bool", FALSE>>, <<"int", <<45,
               <<"uint", <<49, 56, 52, 52, 54, 55, 52, 52, 48, 55, 51, 55, 48, 57, 53, 53, 49, 54, 49, 53>>>>,
               <<"float", <<48, 46, 53>>>>, <<"str", <<122, 9>>>>, <<"str", <<>>>>}
 SetOpsSmall == {<<"null", 0>>, <<"bool", TRUE>>, <<"int", <<45, 55>>>>, <<"float", <<48, 46, 53>>>>, <<"str", <<122, 9>>>>}
+SetOpsNonFinite == {<<"float", <<78, 97, 78>>>>, <<"float", <<73, 110, 102>>>>, <<"float", <<45, 73, 110, 102>>>>, <<"float", <<48, 46, 53>>>>}
+\* every byte that must be escaped, DEL, and multi-byte UTF-8, as key and as value
+ByteStrs == {<<b>> : b \in 0..127} \cup {<<195, 169>>, <<226, 130, 172>>, <<240, 159, 152, 128>>, <<92, 34, 47, 8, 12, 10, 13, 9>>, <<1, 31, 127, 34>>}
+DocsBytes == {<<<<"o", <<<<k, <<"s", k>>>>>>>>>> : k \in ByteStrs} \cup {<<<<"a", <<<<"s", k>>, <<"o", <<<<k, n>>, <<ka, t>>>>>>>>>>>> : k \in ByteStrs}
 SetOpsNull == {<<"null", 0>>, <<"str", <<122>>>>}
 FilterKeysDef == {<<122>>}
 =============================================================================
